@@ -22,7 +22,7 @@ RULE = ('cases 0..255: one weight each (exhaustive sweep every run) through prio
         'differential continuation against a twin that did not receive them; non-trivial = round trip compared or neutrality '
         'judged; distinct = hash of the case parameters')
 MINIMA = {'roundtrip_prioritize_checked': 256, 'roundtrip_headers_checked': 256, 'refusals_checked': 500,
-          'priority_frames_neutrality_checked': 3000, 'differential_continuations': 600, 'idle_connection_priority_cases': 150}
+          'priority_frames_neutrality_checked': 3000, 'differential_continuations': 600, 'idle_connection_priority_cases': 150, 'roundtrip_headers_near_frame_size': 200}
 
 
 def n_cases(tier):
@@ -87,8 +87,15 @@ def roundtrip(weight, rng, rep):
         kw['priority_exclusive'] = excl2
     if not kw:
         kw['priority_weight'] = w = 16
-    res = d.call('c', 'send_headers', sid, REQ, end_stream=True, **kw)
-    wit2 = {'stream': sid, 'kw': kw}
+    hs = REQ
+    if rng.random() < 0.4:
+        # a header block whose encoded size is close to MAX_FRAME_SIZE: the five priority octets share the first frame with it
+        # (characters with 8-bit Huffman codes, so the encoded length follows the value length)
+        n = rng.randrange(16290, 16400)
+        hs = REQ + [(b'x-big', bytes(rng.choice(b'XZ') for _ in range(n)))]
+        rep.count('roundtrip_headers_near_frame_size')
+    res = d.call('c', 'send_headers', sid, hs, end_stream=True, **kw)
+    wit2 = {'stream': sid, 'kw': kw, 'header_block': 'default' if hs is REQ else 'x-big of %d octets' % len(hs[-1][1])}
     if res.exc is not None:
         rep.violation('C23:valid-priority-headers-refused', 'send_headers(%s) raised %r' % (kw, res.exc), wit2)
         return
